@@ -213,7 +213,6 @@ func volumeFields(c *core.C, t *core.T, vc volCase) {
 	c.Nontrivial()
 }
 
-
 var volOps = [...]string{">=", "<<", "=", ">>", "<="}
 var volArches = [...]string{"amd64", "i386", "arm64", "armhf", "s390x", "riscv64", "linux-any", "any-amd64", "kfreebsd-any", "hurd-i386"}
 
@@ -223,8 +222,8 @@ func volumeDeps(c *core.C, t *core.T, vc volCase) {
 	r := core.NewRand(vc.Seed, "volume-deps")
 	type poss struct {
 		name, op, ver string
-		arches       []string
-		not          bool
+		arches        []string
+		not           bool
 	}
 	for i := 0; i < vc.N; i++ {
 		var sb strings.Builder
